@@ -209,14 +209,17 @@ def diff_outside(before, after, top, tmpdirs):
 
 
 class World(object):
-    def __init__(self, base, idx, case, rng, docs, stats):
+    def __init__(self, base, idx, case, rng, docs, stats, reuse=False):
         self.case = case
         self.rng = rng
         self.docs = docs
         self.stats = stats
-        self.top = os.path.join(base, "c%d" % idx)
-        shutil.rmtree(self.top, True)
-        os.makedirs(self.top)
+        self.reuse = reuse        # light mode: one world for all cases, only the files are removed in between
+        self.made = []
+        self.top = os.path.join(base, "L" if reuse else "c%d" % idx)
+        if not reuse:
+            shutil.rmtree(self.top, True)
+        os.makedirs(self.top, exist_ok=True)
         self.loc = os.path.join(self.top, SOS) if case["where"] == "under" else self.top
         self.is_archive = case["pack"] in ARCHIVE_PACKS or case["pack"] in ("text", "badgz")
         self.exd = os.path.join(self.loc, "ex d" if case["space"] != "none" else "exd")
@@ -260,7 +263,7 @@ class World(object):
             f.write("outside\n")
 
     def make_dir_input(self, root):
-        os.makedirs(root)
+        os.makedirs(root, exist_ok=self.reuse)
         order = list(self.names)
         self.rng.shuffle(order)
         for p in order:
@@ -268,6 +271,10 @@ class World(object):
             full = os.path.join(root, *rp)
             if not os.path.isdir(os.path.dirname(full)):
                 os.makedirs(os.path.dirname(full))
+            if self.reuse:
+                if os.path.isdir(full) and not os.path.islink(full):
+                    shutil.rmtree(full)       # an (empty) directory left by an earlier case where a file goes now
+                self.made.append(full)
             if p[-1] == LNF:
                 os.symlink(os.path.join(self.out_target, "file"), full)
             elif p[-1] == LND:
@@ -278,6 +285,11 @@ class World(object):
         if any(p[-1] in (LNF, LND) for p in self.names):
             if not os.path.isdir(self.out_target):
                 self.make_link_targets()
+
+    def remove_files(self):
+        for f in self.made:
+            os.unlink(f)
+        self.made = []
 
     # -- archives ---------------------------------------------------------
     def evil_members(self):
@@ -643,6 +655,7 @@ def run_light(w, case, reps):
             r = ["error:" + kind_of(ex), 0, [], 0]
         if r not in res:
             res.append(r)
+    w.remove_files()
     return res
 
 
@@ -696,9 +709,10 @@ def main():
         if case["plug"] != job.get("plug", "none"):
             raise HarnessError("case %s wants plug=%s in a process with plug=%s" % (case["id"], case["plug"], job.get("plug")))
         check_lens(case)
-        w = World(base, idx, case, rng, docs, stats)
+        w = World(base, idx, case, rng, docs, stats, reuse=bool(job.get("light")))
         if job.get("light"):
             idents[case["id"]] = run_light(w, case, job.get("reps", 2))
+            continue
         else:
             ev = run_run(w, case, stats) if case["mode"] == "run" else run_api(w, case, stats)
             inp = dict((k, case[k]) for k in ("files", "pack", "wrap", "evil", "override", "where", "inject", "plug",
